@@ -63,6 +63,15 @@ class FuncInfo:
         return self.cls is not None and any(isinstance(d, ast.Name) and d.id == "staticmethod" for d in self.node.decorator_list)
 
     @property
+    def is_property(self):
+        """@property (or functools.cached_property): read as an attribute, evaluated by a call without arguments"""
+        for d in self.node.decorator_list:
+            nm = d.id if isinstance(d, ast.Name) else (d.attr if isinstance(d, ast.Attribute) else None)
+            if nm in ("property", "cached_property"):
+                return True
+        return False
+
+    @property
     def has_self(self):
         return self.cls is not None and not self.is_static and bool(self.node.args.args)
 
